@@ -11,7 +11,7 @@ REPLAYS = os.path.join(HERE, "replays")
 KF_FILE = os.path.join(HERE, "known_findings.json")
 KANI_FLAGS = ["--no-default-features", "-Z", "stubbing", "-Z", "unstable-options"]
 
-QUICK_TIMEOUT = int(os.environ.get("VERIF_QUICK_HARNESS_TIMEOUT", "420"))
+QUICK_TIMEOUT = int(os.environ.get("VERIF_QUICK_HARNESS_TIMEOUT", "720"))
 THOROUGH_TIMEOUT = int(os.environ.get("VERIF_THOROUGH_HARNESS_TIMEOUT", "2700"))
 
 
@@ -44,7 +44,7 @@ class Harness:
 def discover():
     hs = []
     for key in overlay.harness_files():
-        if key == "common":
+        if key == "common" or key.startswith("x_"):
             continue
         meta, stubs, unwind, in_proof = {}, [], None, False
         for line in open(os.path.join(overlay.HARNESS_DIR, key + ".rs")):
@@ -62,6 +62,13 @@ def discover():
                 m = re.match(r"#\[kani::stub\(([^,]+),", s)
                 if m:
                     stubs.append(m.group(1).strip())
+            elif re.match(r"^(\w+)_harness!\(\s*(\w+)", s):
+                # harness declared through a macro that attaches the abstract-outbound stubs
+                m = re.match(r"^(\w+)_harness!\(\s*(\w+)", s)
+                if not meta.get("props"):
+                    raise SystemExit("harness %s in %s.rs has no @harness props" % (m.group(2), key))
+                hs.append(Harness(m.group(2), key, meta, ["abstract outbound K1-K7 (%s)" % m.group(1)], int(meta.get("unwind", "0")) or None))
+                meta, stubs, unwind, in_proof = {}, [], None, False
             elif in_proof and re.match(r"(pub(\(crate\))?\s+)?fn\s+(\w+)\s*\(", s):
                 name = re.match(r"(pub(\(crate\))?\s+)?fn\s+(\w+)\s*\(", s).group(3)
                 if not meta.get("props"):
